@@ -7,7 +7,7 @@
   lexer.go (`Gen.lexTables`), the side conditions being discharged by `decide`
   on the whole table.
 -/
-import Pongo.Lemmas.Lex
+import Pongo.Lemmas.LexPos
 import Pongo.Gen.LexTables
 
 namespace Pongo.C06
@@ -113,5 +113,16 @@ example : ∀ k, k < ([0x7b, 0x7b, 0x78] : Bytes).length →
 example : lex Gen.lexTables (Gen.lexTables.verbStart ++ ([0x7b, 0x7b, 0x78] ++ Gen.lexTables.verbEnd)) =
     .ok [⟨.html, [0x7b, 0x7b, 0x78], 1, 1 + Gen.lexTables.verbStartW, false, Gen.lexTables.verbStartW⟩] := by
   simpa using gen_verbatim_literal [0x7b, 0x7b, 0x78] (by decide)
+
+/-- **Every text token is a byte-for-byte piece of the source**, for every source whatsoever (text
+    mixed with tags, strings, comments, verbatim blocks; any bytes): the literal text the renderer
+    will write for it is exactly what stands in the source at the token's offset — nothing is
+    re-encoded, dropped or added by the lexer. -/
+theorem text_tokens_are_source_text (s : Bytes) (toks : List Tok) (h : lex Gen.lexTables s = .ok toks) :
+    ∀ t ∈ toks, t.typ = .html → t.val <+: s.drop t.off := by
+  have := lex_pos Gen.lexTables (by decide) (by decide) s
+  rw [h] at this
+  intro t ht
+  exact (this t ht).2.2
 
 end Pongo.C06
